@@ -96,28 +96,23 @@ def st_flat(o):
 
 
 class ShapeGen:
-    def __init__(self, c, max_leaves, tuple_max=2, swap=True):
-        self.c, self.left, self.n, self.tuple_max, self.swap = c, max_leaves, 0, tuple_max, swap
+    """choice-driven generator of every shape with at most `max_nodes` nodes (leaves, tuples and nested Structured
+    instances all count) and nesting depth <= depth; leaves are numbered 1, 2, ... in generation order"""
 
-    def can(self, depth):
-        return self.left > 0 or depth > 0
+    def __init__(self, c, max_nodes, tuple_max=2, swap=True):
+        self.c, self.left, self.n, self.tuple_max, self.swap = c, max_nodes, 0, tuple_max, swap
 
     def node(self, depth):
-        opts = []
-        if self.left > 0:
-            opts.append("leaf")
-        if depth > 0:
-            opts += ["tuple", "struct"]
-        if not opts:
+        if self.left <= 0:
             raise Skip()
-        k = opts[self.c.choose(len(opts))]
-        if k == "leaf":
-            self.left -= 1
+        self.left -= 1
+        k = self.c.choose(3 if depth > 0 else 1)
+        if k == 0:
             self.n += 1
             return self.n
-        if k == "tuple":
+        if k == 1:
             out = []
-            while len(out) < self.tuple_max and self.can(depth - 1) and self.c.flag():
+            while len(out) < self.tuple_max and self.left > 0 and self.c.flag():
                 out.append(self.node(depth - 1))
             return tuple(out)
         return self.struct(depth)
@@ -125,7 +120,7 @@ class ShapeGen:
     def struct(self, depth, top=False):
         items = {}
         for key in ("a", "b", "root"):
-            if self.can(depth - 1) and self.c.flag():
+            if self.left > 0 and self.c.flag():
                 items[key] = self.node(depth - 1)
         if top and self.swap and "a" in items and "b" in items and self.c.flag():
             items = {k: items[k] for k in ("b", "a", "root") if k in items}
@@ -133,7 +128,7 @@ class ShapeGen:
 
 
 def gen_top(c, ctx):
-    g = ShapeGen(c, ctx["leaves"], swap=ctx.get("swap", True))
+    g = ShapeGen(c, ctx["nodes"], swap=ctx.get("swap", True))
     node = g.struct(ctx["depth"], top=True)
     for _ in range(c.upto(ctx.get("wraps", 2))):
         node = R.MS({"root": node})
@@ -446,19 +441,18 @@ def drv_st_unary(c, ctx, col):
 # ---- pairs / triples: _merge, ==, _update with another structure ------------------------------------------
 
 def gen_small(c, ctx, start):
-    """a top-level merge operand: leaf, tuple or Structured"""
-    g = ShapeGen(c, ctx["leaves"], swap=False)
+    """a top-level merge operand: Structured, tuple or leaf"""
+    g = ShapeGen(c, ctx["nodes"], swap=False)
     g.n = start
     kind = c.choose(3)
     if kind == 0:
         node = g.struct(ctx["depth"], top=True)
     elif kind == 1:
         out = []
-        while len(out) < 2 and g.can(ctx["depth"] - 1) and c.flag():
+        while len(out) < 2 and g.left > 0 and c.flag():
             out.append(g.node(ctx["depth"] - 1))
         node = tuple(out)
     else:
-        g.left -= 1
         g.n += 1
         node = g.n
     return node, g.n
@@ -1056,18 +1050,20 @@ def subchecks(tier, seed):
     quick = tier == "quick"
     subs = []
     # ---- Structured
-    st = {"depth": 2, "leaves": 4, "wraps": 2} if quick else {"depth": 3, "leaves": 4, "wraps": 2}
-    subs.append(Sub("structured-unary", drv_st_unary, st, shard_depth=4 if quick else 5,
-                    bounds={"depth": st["depth"], "max_leaves": st["leaves"], "tuple_len": "0..2", "keys": ["root", "a", "b"],
-                            "redundant_wraps": "0..2", "operations": ST_OPS}))
-    mg = {"depth": 2, "leaves": 2, "arity": 2, "arity_min": 0}
+    sts = [("structured-unary", {"depth": 3, "nodes": 4, "wraps": 2}, 4)] if quick else \
+          [("structured-unary", {"depth": 4, "nodes": 5, "wraps": 2}, 5), ("structured-unary-wide", {"depth": 3, "nodes": 6, "wraps": 2}, 5)]
+    for name, st, sd in sts:
+        subs.append(Sub(name, drv_st_unary, st, shard_depth=sd,
+                        bounds={"nesting_depth": st["depth"], "max_nodes_below_top": st["nodes"], "tuple_len": "0..2",
+                                "keys": ["root", "a", "b"], "redundant_wraps": "0..2", "operations": ST_OPS}))
+    mg = {"depth": 2, "nodes": 3, "arity": 2, "arity_min": 0} if quick else {"depth": 3, "nodes": 3, "arity": 2, "arity_min": 0}
     subs.append(Sub("structured-merge", drv_st_merge, mg, shard_depth=4,
-                    bounds={"operands": "0..2 nodes (leaf / tuple / Structured), depth <= 2, <= 2 leaves each",
+                    bounds={"operands": "0..2 nodes (leaf / tuple / Structured), nesting depth <= %d, <= 3 nodes each" % mg["depth"],
                             "mergers": ["custom", "default on list leaves"]}))
     if not quick:
-        mg3 = {"depth": 2, "leaves": 1, "arity": 3, "arity_min": 3}
+        mg3 = {"depth": 2, "nodes": 2, "arity": 3, "arity_min": 3}
         subs.append(Sub("structured-merge-3", drv_st_merge, mg3, shard_depth=4,
-                        bounds={"operands": "3 nodes, depth <= 2, <= 1 leaf each"}))
+                        bounds={"operands": "3 nodes, nesting depth <= 2, <= 2 nodes each"}))
     # ---- LayeredMapping
     full, reduced = lm_events(True), lm_events(False)
     subs.append(Sub("layered-stacks", drv_lm,
